@@ -62,13 +62,12 @@ structure Payment where
   roundingCurrency : Bool      -- r.GetRoundingRule() == "currency"
   rates    : List ExchangeRate
   lines    : List PaymentLine
-  total    : Amount            -- value before the calculation
+  total    : Amount            -- value before the calculation (overwritten: see `Payment.calculate`)
 deriving Repr, Inhabited
 
 inductive CalcError where
   | noRate        -- "no exchange rate found"
   | docCurrency   -- invalid document currency
-  | panic         -- Total.Merge dereferences nil
 deriving DecidableEq, Repr
 
 /-- one side (debit or credit) of `PaymentLine.calculate` -/
@@ -124,7 +123,7 @@ def stepLine (p : Payment) (st : LoopState) (l : PaymentLine) : Except CalcError
       | some t =>
         match st.tt with
         | none => pure (some t)
-        | some acc => if acc.mergePanics t then throw .panic else pure (some (acc.merge t))
+        | some acc => pure (some (acc.merge t))
   let total := match st.total with | none => lt | some acc => acc.add lt
   return { lineTotals := st.lineTotals ++ [lt], tt := tt, total := some total }
 
@@ -134,10 +133,15 @@ def runLines (p : Payment) : List PaymentLine → LoopState → Except CalcError
     | .error e => .error e
     | .ok st' => runLines p ls st'
 
-/-- `Payment.calculate` (after the currency has been determined) -/
+/-- `num.AmountZero` -/
+def amountZero : Amount := ⟨0, 0⟩
+
+/-- `Payment.calculate` (after the currency has been determined): the total is the
+    sum of the line totals, `num.AmountZero` when there is no line (fix 99b2945;
+    whatever total the payment carried before is not looked at) -/
 def Payment.calculate (p : Payment) : Except CalcError Result :=
   match runLines p p.lines ⟨[], none, none⟩ with
   | .error e => .error e
-  | .ok st => .ok { lineTotals := st.lineTotals, tax := st.tt, total := st.total.getD p.total }
+  | .ok st => .ok { lineTotals := st.lineTotals, tax := st.tt, total := st.total.getD amountZero }
 
 end GoblVerif.Payment
